@@ -291,10 +291,14 @@ func Cli() {
 			specs[i].status = statusPool[sym.Choice("status_"+specs[i].name, len(statusPool))]
 		}
 	}
-	text := "V := \"val\"\nW := \"two\"\n# doc of a\ntask a() {\n\t" + cmdText("cmdA1", specs[0].status) + "\n\t" + cmdText("cmdA2", specs[1].status) + "\n}\n\ntask b(a) {\n\t" + cmdText("cmdB", specs[2].status) + "\n}\n"
+	// definitions are written in an order that is NOT the sorted one (W before V; default, b, a):
+	// the engine's maps iterate in insertion order, so a listing that forgot to sort would
+	// otherwise still come out sorted
+	text := "W := \"two\"\nV := \"val\"\n"
 	if hasDefault {
-		text += "# the default\ntask default() {\n\t" + cmdText("cmdD", specs[3].status) + "\n}\n"
+		text += "# the default\ntask default() {\n\t" + cmdText("cmdD", specs[3].status) + "\n}\n\n"
 	}
+	text += "task b(a) {\n\t" + cmdText("cmdB", specs[2].status) + "\n}\n\n# doc of a\ntask a() {\n\t" + cmdText("cmdA1", specs[0].status) + "\n\t" + cmdText("cmdA2", specs[1].status) + "\n}\n"
 	switch variant {
 	case "syntax-error":
 		text = "task a( {\n"
